@@ -23,7 +23,8 @@ VARIANTS = [{"name": "lenkeys=%s,dup=%s,inv1=%s,scope_all=%s,noadd=%s" % f,
 VARIANTS[0]["name"] = "current(" + VARIANTS[0]["name"] + ")"
 VARIANTS[-1]["name"] = "fixed(" + VARIANTS[-1]["name"] + ")"
 
-RULE = ("a case is a history over 2 datasets, 4 entity ids and 2 predicates: batches and two-dataset transactions whose entities "
+RULE = ("a case is a history over 2 datasets, 4 entity ids and 2 predicates: batches, two-dataset transactions and forced two-writer races "
+        "(a batch or transaction waiting for the dataset lock while another batch commits) whose entities "
         "carry single and array references (several predicates between one pair, repeated targets), deleted flags, delete/un-delete "
         "inside a batch and across batches, the same entity in both datasets with different delete states, engineered equal-length "
         "un-deletes; interleaved with dumps of the raw reference keys and followed by relationship queries: start x {r1, r2, *} x "
